@@ -79,7 +79,12 @@ func (r *casValidatingReader) doRead(p []byte) (int, error) {
 		// No more data expected. We must observe an EOF now.
 		var p [1]byte
 		nFinal, err := io.ReadFull(r.ReadCloser, p[:])
-		if err != nil && err != io.EOF && err != io.ErrUnexpectedEOF {
+		if err != nil && err != io.EOF {
+			// io.ReadFull() cannot turn io.EOF into
+			// io.ErrUnexpectedEOF for a one byte buffer. Any
+			// io.ErrUnexpectedEOF therefore comes from the
+			// underlying reader (e.g. a truncated compressed
+			// stream) and must not be mistaken for a clean end.
 			return 0, err
 		}
 		if err := r.checkSize(nFinal); err != nil {
